@@ -7255,7 +7255,11 @@ let rec store_tree fuel id t0 =
              ('c'::('e'::('l'::('l'::(' '::('p'::('a'::('y'::('l'::('o'::('a'::('d'::(' '::('d'::('i'::('s'::('a'::('g'::('r'::('e'::('e'::('s'::(' '::('w'::('i'::('t'::('h'::(' '::('i'::('t'::('s'::(' '::('t'::('y'::('p'::('e'::[])))))))))))))))))))))))))))))))))))))
       | VEnum (tn, _, i) ->
         (match cl.c_val with
-         | PEnum (_, _) -> set_cell_val id (PEnum (tn, i))
+         | PEnum (tn0, _) ->
+           if str_eqb tn tn0
+           then set_cell_val id (PEnum (tn0, i))
+           else crash
+                  ('c'::('e'::('l'::('l'::(' '::('p'::('a'::('y'::('l'::('o'::('a'::('d'::(' '::('d'::('i'::('s'::('a'::('g'::('r'::('e'::('e'::('s'::(' '::('w'::('i'::('t'::('h'::(' '::('i'::('t'::('s'::(' '::('t'::('y'::('p'::('e'::[]))))))))))))))))))))))))))))))))))))
          | _ ->
            crash
              ('c'::('e'::('l'::('l'::(' '::('p'::('a'::('y'::('l'::('o'::('a'::('d'::(' '::('d'::('i'::('s'::('a'::('g'::('r'::('e'::('e'::('s'::(' '::('w'::('i'::('t'::('h'::(' '::('i'::('t'::('s'::(' '::('t'::('y'::('p'::('e'::[])))))))))))))))))))))))))))))))))))))
